@@ -583,3 +583,259 @@ Proof.
 Qed.
 
 End Main.
+
+(* ------------------------------------------------------------------ *)
+(* which rules are registered                                           *)
+(* ------------------------------------------------------------------ *)
+
+Lemma fpat_filters_inj p : forall fl fl',
+  ntok p = length fl -> ntok p = length fl' -> fpat p fl = fpat p fl' -> fl = fl'.
+Proof.
+  induction p as [|c r IH]; intros fl fl' H1 H2 H; simpl in *.
+  - destruct fl, fl'; try discriminate; reflexivity.
+  - destruct (N.eqb c TOKEN).
+    + destruct fl as [|a fl], fl' as [|b fl']; try discriminate. simpl in *.
+      injection H as -> H. f_equal. apply IH; auto.
+    + injection H as H. now apply IH.
+Qed.
+
+(* _match is sound: an exact node reached under filters flts holds the entry
+   of exactly that route string and those filters *)
+Lemma tmatch_sound : forall n, wf n -> forall route flts pidx n0 d,
+  ntok route + pidx <= length flts ->
+  tmatch n route flts pidx = MExact n0 -> ndata n0 = Some d ->
+  In (fpat route (skipn pidx flts), (d, nnames n0)) (paths n).
+Proof.
+  induction n as [key d0 nm0 f h kids IH] using node_ind'. intros Hw route flts pidx n0 d Hn Hm Hd.
+  pose proof (wf_inv _ _ _ _ _ _ Hw) as (H1 & H2 & H3 & H4).
+  destruct route as [|c0 r].
+  - simpl in Hm. injection Hm as <-. simpl in Hd. subst d0. rewrite paths_node. simpl. now left.
+  - cbn [tmatch] in Hm. rewrite paths_node. apply in_or_app. right.
+    assert (G : forall ks, incl ks kids ->
+                tm_go (fun k r p => tmatch k r flts p) flts c0 (c0 :: r) pidx ks = MExact n0 ->
+                In (fpat (c0 :: r) (skipn pidx flts), (d, nnames n0)) (kids_entries ks)).
+    { induction ks as [|k ks IHks]; intros Hincl; [simpl; discriminate|]. cbn [tm_go].
+      assert (Hk : In k kids) by (apply Hincl; now left).
+      rewrite Forall_forall in IH, H1, H2. specialize (H2 k Hk).
+      destruct (head_is k c0) eqn:Eh.
+      - unfold tm_kid. destruct (prefixb (nkey k) (c0 :: r)) eqn:Ep; [|discriminate].
+        rewrite kids_entries_cons. intros Hm'. apply in_or_app. left. apply in_kid_entries.
+        destruct (str_eqb_spec (nkey k) tok) as [Ht|Ht].
+        + assert (Hc0 : c0 = TOKEN).
+          { rewrite Ht in Ep. apply prefixb_spec in Ep. destruct Ep as [r' Er']. unfold tok in Er'.
+            simpl in Er'. now injection Er'. }
+          subst c0. assert (Hnt : ntok (TOKEN :: r) = S (ntok r)) by (simpl; now rewrite N.eqb_refl).
+          rewrite Hnt in Hn. unfold filter_check in Hm'.
+          destruct flts as [|g0 gs] eqn:Eflts; [simpl in Hn; lia|]. rewrite <- Eflts in *.
+          destruct (nth_error flts pidx) as [g|] eqn:Enth; [|discriminate].
+          destruct (ofid_eqb (nflt k) g) eqn:Eof; [|discriminate]. apply ofid_eqb_eq in Eof.
+          exists (fpat r (skipn (S pidx) flts)). split.
+          * rewrite key_pcs_tok by exact Ht. rewrite (nth_error_skipn flts pidx g Enth). simpl.
+            rewrite N.eqb_refl. now rewrite Eof.
+          * apply (IH k Hk (H1 k Hk) _ flts (S pidx) n0 d); auto. simpl. lia.
+        + assert (Hlit : ~ In TOKEN (nkey k)) by (destruct H2 as [_ [E|E]]; [contradiction | exact E]).
+          pose proof (prefixb_split _ _ Ep) as Hsplit.
+          exists (fpat (skipn (length (nkey k)) (c0 :: r)) (skipn pidx flts)). split.
+          * rewrite key_pcs_lit by (auto; apply H2). rewrite <- fpat_lit by exact Hlit. now rewrite <- Hsplit.
+          * apply (IH k Hk (H1 k Hk) _ flts pidx n0 d); auto.
+            rewrite <- (ntok_lit (nkey k)) by exact Hlit. now rewrite <- Hsplit.
+      - intros Hm'. rewrite kids_entries_cons. apply in_or_app. right. apply IHks; auto.
+        intros x Hx. apply Hincl. now right. }
+    apply G; [apply incl_refl | exact Hm].
+Qed.
+
+(* a registration that is not refused by the tree is, afterwards, one of the
+   rules — under the pattern and the filters it was made with *)
+Lemma add_registers R rule pattern nm flts ms h name ow :
+  Inv R -> ntok pattern = length flts ->
+  (forall e, snd (rt_add R rule pattern nm flts ms h name ow) <> Some (AKeyError e)) ->
+  exists d, In (pat_of pattern flts, d) (rules_of (fst (rt_add R rule pattern nm flts ms h name ow))).
+Proof.
+  intros HI Hn Hne.
+  (* the rules of the final state are those of the state after the registration part *)
+  assert (Hcore : forall R1 d rt t' nmd, nth_error (heap R1) d = Some rt ->
+            forall q d', In (q, d') (rules_of R1) ->
+            In (q, d') (rules_of (mkRouter (tree R1) (heap_set (heap R1) d (set_methods rt t')) (routes R1) nmd (hooks_idx R1)))).
+  { intros R1 d rt t' nmd E q d' Hin. apply in_rules_of in Hin. destruct Hin as (p & rt0 & A & B & ->).
+    apply in_rules_of. simpl. destruct (Nat.eq_dec d d') as [<-|Hd].
+    - exists p, (set_methods rt t'). rewrite nth_error_heap_set, Nat.eqb_refl, E. split; [exact A|].
+      split; [reflexivity|]. assert (rt0 = rt) by congruence. now subst.
+    - exists p, rt0. rewrite nth_error_heap_set. apply Nat.eqb_neq in Hd. now rewrite Hd. }
+  pose proof (Inv_add_found R rule pattern nm flts HI Hn) as Hf.
+  unfold rt_add in *.
+  destruct (rt_match R pattern flts) as [d|] eqn:Em.
+  - (* an existing route: it sits under this very pattern and these filters *)
+    assert (Hin0 : In (pat_of pattern flts, d) (rules_of R)).
+    { unfold rt_match in Em. destruct (tmatch (tree R) pattern flts 0) as [n0|] eqn:Et; [|discriminate].
+      pose proof (tmatch_sound (tree R) (inv_wf R HI) pattern flts 0 n0 d) as Hs.
+      assert (Hin : In (fpat pattern flts, (d, nnames n0)) (paths (tree R))) by (apply Hs; auto; lia).
+      apply (inv_paths R HI) in Hin. destruct Hin as (p & d1 & rt & A & B & C). unfold entry_of in C.
+      injection C as C1 <- C3. apply fpat_inj in C1 as Hp. subst p.
+      apply in_rules_of. exists pattern, rt. split; [now apply al_get_in|]. split; [exact B|].
+      (* same filters: the character-level patterns are equal *)
+      destruct (inv_routes R HI pattern d A) as (rt1 & B1 & _ & Hlen). assert (rt1 = rt) by congruence. subst rt1.
+      f_equal. symmetry. eapply fpat_filters_inj; eauto. }
+    simpl in *. destruct (nth_error (heap R) d) as [rt|] eqn:E; [|eauto].
+    destruct (if ow then Some _ else mt_add _ _ _) as [t'|]; [|eauto].
+    exists d. destruct name as [[|c nme]|]; simpl;
+      repeat match goal with
+             | |- context [match al_get ?l ?k with _ => _ end] => destruct (al_get l k); simpl
+             | |- context [if ?b then _ else _] => destruct b; simpl
+             end; now apply Hcore.
+  - cbv zeta in *. destruct (set_at (tree R) pattern flts 0 (IData (length (heap R))) nm) as [t'|e] eqn:Es.
+    2:{ exfalso. apply (Hne e). reflexivity. }
+    set (d := length (heap R)) in *. set (new := mkRoute rule pattern nm flts []) in *.
+    set (R1 := mkRouter t' (heap R ++ [new]) (al_set (routes R) pattern d) (named R) (hooks_idx R)) in *.
+    assert (Hnew : nth_error (heap R1) d = Some new).
+    { unfold R1, d. simpl. rewrite nth_error_app2 by lia. now rewrite Nat.sub_diag. }
+    assert (Hin0 : In (pat_of pattern flts, d) (rules_of R1)).
+    { apply in_rules_of. exists pattern, new. split; [|split; [exact Hnew | reflexivity]].
+      apply al_get_in. unfold R1. simpl. now rewrite al_get_set, str_eqb_refl. }
+    rewrite Hnew. simpl.
+    destruct (if ow then Some _ else mt_add _ _ _) as [t2|]; [|eauto].
+    exists d. destruct name as [[|c nme]|]; simpl;
+      repeat match goal with
+             | |- context [match al_get ?l ?k with _ => _ end] => destruct (al_get l k); simpl
+             | |- context [if ?b then _ else _] => destruct b; simpl
+             end; now apply Hcore.
+Qed.
+
+(* a registration refused by the tree (filter conflict ...) changes nothing *)
+Lemma add_rejected_unchanged R rule pattern nm flts ms h name ow e :
+  snd (rt_add R rule pattern nm flts ms h name ow) = Some (AKeyError e) ->
+  fst (rt_add R rule pattern nm flts ms h name ow) = R.
+Proof.
+  unfold rt_add. destruct (rt_match R pattern flts) as [d|].
+  - destruct (nth_error (heap R) d) as [rt|]; [|discriminate].
+    destruct (if ow then Some _ else mt_add _ _ _) as [t'|]; [|discriminate].
+    destruct name as [[|c nme]|]; simpl; try discriminate.
+    destruct (al_get (named R) (c :: nme)) as [d0|]; simpl; [|discriminate].
+    destruct (negb ow && negb (Nat.eqb d0 d)); discriminate.
+  - cbv zeta. destruct (set_at (tree R) pattern flts 0 (IData (length (heap R))) nm) as [t'|e0]; [|reflexivity].
+    simpl. rewrite nth_error_app2 by lia. rewrite Nat.sub_diag. simpl.
+    destruct (if ow then Some _ else mt_add _ _ _) as [t2|]; [|discriminate].
+    destruct name as [[|c nme]|]; simpl; try discriminate.
+    destruct (al_get (named R) (c :: nme)) as [d0|]; simpl; [|discriminate].
+    destruct (negb ow && negb (Nat.eqb d0 (length (heap R)))); discriminate.
+Qed.
+
+(* ------------------------------------------------------------------ *)
+(* the names a handler is called with are those of a registration of    *)
+(* that handler, for that method, on that pattern                        *)
+(* ------------------------------------------------------------------ *)
+Definition prov (cs : list cmd) (R : router) : Prop :=
+  forall d rt m h mn, nth_error (heap R) d = Some rt -> mt_get (r_methods rt) m = Some (h, mn) ->
+    exists rule fl ms name ow, In (CAdd rule (r_pattern rt) mn fl ms h name ow) cs /\ In m (norm_methods ms).
+
+Lemma prov_mono cs c R : prov cs R -> prov (cs ++ [c]) R.
+Proof.
+  intros H d rt m h mn A B. destruct (H d rt m h mn A B) as (rule & fl & ms & name & ow & Hin & Hm).
+  exists rule, fl, ms, name, ow. split; [apply in_or_app; now left | exact Hm].
+Qed.
+
+Lemma existsb_str_in k ms : existsb (fun m => str_eqb m k) ms = true -> In k ms.
+Proof.
+  induction ms as [|m ms IH]; simpl; [discriminate|]. intros H. apply orb_true_iff in H.
+  destruct H as [H|H]; [left; now apply str_eqb_eq | right; auto].
+Qed.
+
+Lemma prov_step cs R c : Inv R -> add_cmd c -> prov cs R -> prov (cs ++ [c]) (fst (run_cmd R c)).
+Proof.
+  intros HI Hc Hp. destruct c; simpl in *; try contradiction; try (now apply prov_mono).
+  - (* CAdd *)
+    unfold rt_add.
+    set (found := match rt_match R pattern flts with Some d => inl (R, d) | None => _ end).
+    assert (Hf : match found with
+                 | inl (R1, d) => prov cs R1 /\ (forall rt, nth_error (heap R1) d = Some rt -> r_pattern rt = pattern)
+                 | inr _ => True
+                 end).
+    { unfold found. destruct (rt_match R pattern flts) as [d|] eqn:Em.
+      - split; [exact Hp|]. intros rt E. unfold rt_match in Em.
+        destruct (tmatch (tree R) pattern flts 0) as [n0|] eqn:Et; [|discriminate].
+        assert (Hin : In (fpat pattern flts, (d, nnames n0)) (paths (tree R)))
+          by (apply (tmatch_sound (tree R) (inv_wf R HI) pattern flts 0 n0 d); auto; lia).
+        apply (inv_paths R HI) in Hin. destruct Hin as (p & d1 & rt1 & A & B & C). unfold entry_of in C.
+        injection C as C1 <- _. apply fpat_inj in C1. subst p.
+        destruct (inv_routes R HI pattern d A) as (rt2 & B2 & C2 & _). congruence.
+      - cbv zeta. destruct (set_at (tree R) pattern flts 0 (IData (length (heap R))) nm) as [t'|e]; [|exact I].
+        split.
+        + intros d rt m h0 mn A B. simpl in A.
+          destruct (Nat.lt_ge_cases d (length (heap R))) as [Hlt|Hge].
+          * rewrite nth_error_app1 in A by exact Hlt. eauto.
+          * rewrite nth_error_app2 in A by exact Hge. destruct (d - length (heap R)) as [|k]; simpl in A.
+            -- injection A as <-. simpl in B. discriminate.
+            -- destruct k; discriminate.
+        + intros rt E. simpl in E. rewrite nth_error_app2 in E by lia. rewrite Nat.sub_diag in E.
+          simpl in E. now injection E as <-. }
+    destruct found as [[R1 d]|e]; [|now apply prov_mono].
+    destruct Hf as (Hp1 & Hpat).
+    destruct (nth_error (heap R1) d) as [rt|] eqn:E; [|now apply prov_mono].
+    set (ent := (h, nm)).
+    destruct (if overwrite then Some (mt_set_all (r_methods rt) (norm_methods methods) ent)
+              else mt_add (r_methods rt) (norm_methods methods) ent) as [t'|] eqn:Et; [|now apply prov_mono].
+    assert (Ht' : t' = mt_set_all (r_methods rt) (norm_methods methods) ent).
+    { destruct overwrite; [congruence|]. unfold mt_add in Et.
+      destruct (mt_registered _ _); [discriminate | congruence]. }
+    assert (G : forall nmd, prov (cs ++ [CAdd rule pattern nm flts methods h name overwrite])
+                  (mkRouter (tree R1) (heap_set (heap R1) d (set_methods rt t')) (routes R1) nmd (hooks_idx R1))).
+    { intros nmd d' rt' m h0 mn A B. simpl in A. rewrite nth_error_heap_set in A.
+      destruct (Nat.eqb_spec d d') as [<-|Hd].
+      - rewrite E in A. injection A as <-. simpl in B. rewrite Ht', mt_get_set_all in B.
+        destruct (existsb (fun m0 => str_eqb m0 m) (norm_methods methods)) eqn:Ex.
+        + injection B as <- <-. exists rule, flts, methods, name, overwrite. split.
+          * apply in_or_app. right. left. simpl. now rewrite (Hpat rt E).
+          * now apply existsb_str_in.
+        + destruct (Hp1 d rt m h0 mn E B) as (r0 & f0 & m0 & n0 & o0 & Hin & Hm).
+          exists r0, f0, m0, n0, o0. split; [apply in_or_app; now left | exact Hm].
+      - destruct (Hp1 d' rt' m h0 mn A B) as (r0 & f0 & m0 & n0 & o0 & Hin & Hm).
+        exists r0, f0, m0, n0, o0. split; [apply in_or_app; now left | exact Hm]. }
+    destruct name as [[|c nme]|]; simpl; try apply G.
+    destruct (al_get (named R1) (c :: nme)) as [d0|]; simpl; [|apply G].
+    destruct (negb overwrite && negb (Nat.eqb d0 d)); apply G.
+  - (* CRemoveMethod *)
+    unfold rt_remove_method. destruct (rt_match R pattern flts) as [d|]; [|now apply prov_mono].
+    destruct (nth_error (heap R) d) as [rt|] eqn:E; [|now apply prov_mono].
+    intros d' rt' m h0 mn A B. simpl in A. rewrite nth_error_heap_set in A.
+    destruct (Nat.eqb_spec d d') as [<-|Hd].
+    + rewrite E in A. injection A as <-. simpl in B. rewrite mt_get_remove in B.
+      destruct (existsb _ ms); [discriminate|].
+      destruct (Hp d rt m h0 mn E B) as (r0 & f0 & m0 & n0 & o0 & Hin & Hm).
+      exists r0, f0, m0, n0, o0. split; [apply in_or_app; now left | exact Hm].
+    + destruct (Hp d' rt' m h0 mn A B) as (r0 & f0 & m0 & n0 & o0 & Hin & Hm).
+      exists r0, f0, m0, n0, o0. split; [apply in_or_app; now left | exact Hm].
+Qed.
+
+Lemma exec_snoc R cs c : exec_cmds R (cs ++ [c]) = fst (run_cmd (exec_cmds R cs) c).
+Proof. unfold exec_cmds. now rewrite fold_left_app. Qed.
+
+Lemma prov_exec cs : Forall add_cmd cs -> prov cs (exec_cmds router0 cs).
+Proof.
+  induction cs as [|c cs IH] using rev_ind; intros Hcs.
+  - intros d rt m h mn A. destruct d; discriminate.
+  - apply Forall_app in Hcs. destruct Hcs as [Hcs Hc]. inversion Hc; subst.
+    rewrite exec_snoc. apply prov_step; auto. apply Inv_exec; [apply Inv0 | exact Hcs].
+Qed.
+
+(* ------------------------------------------------------------------ *)
+(* the repair F1 is needed: without the guard the lookup hands a route   *)
+(* out with no value for its wildcard                                    *)
+(* ------------------------------------------------------------------ *)
+Definition f1_pattern : str := [102; 111; 111; 47; 13; 47; 98; 97; 114]%N.   (* "foo/\r/bar" *)
+Definition f1_tree : node :=
+  match set_at root0 f1_pattern [None] 0 (IData 0) [[120%N]] with SOk t => t | SErr _ => root0 end.
+
+Lemma f1_unguarded_lemma :
+  exists filt n path,
+    wf n /\
+    match get_at filt false n path 0 with
+    | GFound d nm vs hs => forall p e, In (p, e) (paths n) -> matchf filt p path <> Some vs
+    | GFail _ _ _ => False
+    end.
+Proof.
+  exists (fun _ _ => None), f1_tree, f1_pattern. split.
+  - apply (wf_insert root0 f1_pattern [None] (IData 0) [[120%N]]).
+    + constructor; constructor.
+    + vm_compute. lia.
+    + reflexivity.
+  - vm_compute. intros p e [H|[]]. injection H as <- _. vm_compute. discriminate.
+Qed.
